@@ -31,7 +31,7 @@ CHECKS = {
             "Unique 64-bit payloads both ways over bodies with 0-64 suspend points, every ending (return, panic with &str / formatted String / non-string payload), optional panicking listener and a sibling parked in a delay; checks order, exactly-once completion, message fidelity, no unwinding into the resumer.",
             "Single thread; payloads without a string have no message to carry.", "DESIGN.md §3 C08", "wl-core/coro"),
     "C09": ("exploration", "runtime monitoring: per-yield isolation oracle (no carry-over model) over interleavings of 2-6 coroutines on one thread",
-            "Each yield's reported wake-up time / cancellation is compared with what that yield requested, over thousands of seeded interleavings that include requests issued in Syscall states (what hooked waits and the cancel signal handler do).",
+            "Each yield's reported wake-up time / cancellation is compared with what that yield requested, over thousands of seeded interleavings that include requests issued in every Syscall sub-state (Executing, Suspend, and Timeout/Callback of a call that was woken and waits again) - what hooked waits and the cancel signal handler do.",
             "Requests are thread-local, so one thread per history.", "DESIGN.md §3 C09", "wl-core/coro"),
     "C10": ("exploration", "runtime monitoring: offline checker over resumption stamps and result maps (exactly-once results, delay lower/upper bound in passes, silence after cancel)",
             "Hundreds to thousands of seeded schedules (1-40 coroutines; plain suspends, delays, waits parked inside a system call with a timeout the way EventLoop::wait_just parks them, panics, priorities; cancel requests and try_resume callbacks issued between passes, random gaps) judged from body-side stamps (time, pass, wake reason Timeout/Callback) and the scheduler's returned maps.",
@@ -49,19 +49,19 @@ CHECKS = {
             "Each join must return its own task's value or panic message, TimedOut only if the task had not finished, and within 1 s of max(call, finish); configurations over 1-4 loops and 1-16 joiner threads, incl. two-step joins (first join gives up early) and a deterministic schedule that puts the completion between the waiter's check and its registration.",
             "1 s promptness slack vs 3 s timeouts; C-ABI wrappers not driven separately.", "DESIGN.md §3 C02", "wl-core/loops"),
     "C11": ("exploration", "runtime monitoring: live-coroutine registry from the co_new/co_drop hook compared with get_running_size() at quiescent points",
-            "After every scheduling pass the reported running size must equal the number of live worker coroutines of the pool and stay <= max; after all work is done or cancelled it returns to the idle level and stop() is prompt. Hundreds of generated task programs with cancel requests and self-cancelling tasks.",
+            "After every scheduling pass the reported running size must equal the number of live worker coroutines of the pool and stay <= max; after all work is done or cancelled it returns to the idle level and stop() is prompt. Hundreds of generated task programs with cancel requests and self-cancelling tasks, keep-alive times of 0, 5 ms and 30 s (a stop must not wait for the keep-alive time of idle workers).",
             "min_size 0 only (idle core workers never yield inside a pass without the preemptive feature).", "DESIGN.md §3 C11", "wl-core/pool"),
     "C12": ("exploration", "runtime monitoring: lifecycle oracle over EventLoops::stop racing a submitter, and over standalone pool histories with a waiting thread",
             "stop() success implies every task accepted before it began has run; later submissions are rejected; the state only moves forward; a waiter on a task that never runs is released with an error right after stop instead of sleeping out its own timeout.",
             "One submitting thread at a time at runtime level.", "DESIGN.md §3 C12", "wl-core/loops+pool"),
     "C13": ("exploration", "runtime monitoring: start/end stamps + join outcomes around a cancelled target in each phase; cancel:before_signal pause hook forces the lookup/signal window",
-            "Cancelling a queued / running / suspended task must leave every other task untouched (all start, end and join with their own value), a queued target never starts and its waiter is settled. The lookup-then-signal window is forced deterministically.",
+            "Cancelling a queued / running / suspended task must leave every other task untouched (all start, end and join with their own value), a queued target never starts and its waiter is settled. The lookup-then-signal window is forced deterministically; a late cancel of a detached target that has already finished must not touch the task its former worker serves now.",
             "Single loop, single submitting thread. One known finding (signal lands on another coroutine).", "DESIGN.md §3 C13", "wl-core/loops"),
     "C14": ("exploration", "runtime monitoring: elapsed-time oracle on CLOCK_MONOTONIC (min of 3 attempts) + native-call differential for invalid arguments, each case able to kill its own process",
             "Every hooked timed wait x context x duration (incl. unit boundaries, 4.4 s overflow probes, maximal values) must not return early and must return within a slack derived from the scheduling noise measured around the case (50 ms + 20x the overshoot of a native 1 ms sleep, more for sliced waits; overloaded machine = inconclusive) on the fastest of three attempts; waits issued right after a recv with its own timeout was completed by data; invalid arguments must answer like the native call. A few scenarios run through the real LD_PRELOAD interposition (wl-hook).",
             "Core entry points with real libc underneath for most cases; the dylib's interposed symbols forward to them and are exercised by the wl-hook scenarios.", "DESIGN.md §3 C14", "wl-core/sys"),
-    "C15": ("exploration", "runtime monitoring: completion-time ratio oracle (N sleepers finish in ~d, not N*d) + sibling progress counter + late-arrival latency",
-            "N blocked tasks on one loop must finish within max(2d, d+300 ms) while a computing sibling keeps advancing; a task submitted while the only worker is parked must not wait for the sleeper.",
+    "C15": ("exploration", "runtime monitoring: completion-time ratio oracle (N sleepers finish in ~d, not N*d) + per-call lateness + loop-stall detector fed by an always-runnable sibling + late-arrival latency, gated by an in-process load monitor",
+            "N tasks blocked in usleep/nanosleep/poll/select or in recv/send/accept running into the socket timeout must finish within max(2d, d+300 ms+noise) while a computing sibling keeps advancing; the median call returns at most 40 ms late and the loop thread does not sit still between two steps of the runnable sibling (healthy: 0 ms, 0 stalls); a task submitted while the only worker is parked must not wait for the sleeper.",
             "Core entry points, not the dylib interposition layer.", "DESIGN.md §3 C15", "wl-core/loops"),
     "C16": ("fault_enumeration", "fault injection: scripted kernel through the fn_ptr seam, bounded-exhaustive response scripts x buffer shapes x calls x modes, byte-accounting oracle; ASan overlay in thorough",
             "Every script of kernel responses up to length 2 (quick) / 3 (thorough) over {partials around buffer boundaries, full, EAGAIN, EINTR, EOF/EPIPE, ECONNRESET, timeout} x 8 buffer shapes x 10 calls x blocking/non-blocking is executed; return value, errno and byte placement are compared with what the scripted kernel moved. Longer scripts and coroutine context are sampled.",
@@ -88,7 +88,7 @@ CHECKS = {
             "Concurrent coroutine and thread callers each check that every pwrite/pread/send/recv/mkdirat returns its own byte count, data or errno; a caller still blocked 5 s after the last completion is a lost completion. A receive that waits for late data right after a completed send with a send timeout must not be ended by what that send left behind; a caller whose first call ran into its own SO_RCVTIMEO must still get own results afterwards (known finding: abort).",
             "Kernel 6.18 io_uring; positional reads on sockets are excluded (io_uring semantics differ).", "DESIGN.md §3 C27", "wl-core/uring"),
     "C28": ("exploration", "runtime monitoring: arithmetic oracles over boundary tables + seeded inputs; step-bounded execution of get_slices on a helper thread",
-            "get_timeout_time must lie in [now+d] and saturate exactly when now+d overflows; get_slices pieces must each fit, be non-empty, sum to the total and count ceil(total/slice) without looping; zero socket limit means unlimited.",
+            "get_timeout_time must lie in [now+d] and saturate exactly when now+d overflows; get_slices pieces must each fit, be non-empty, sum to the total and count ceil(total/slice) without looping; zero socket limit means unlimited, limits at the edge of u64 nanoseconds are exact or saturate.",
             "Wall clock does not jump during a case.", "DESIGN.md §3 C28", "wl-core/sys"),
 }
 
